@@ -267,9 +267,13 @@ TEXT = {
                       "links never read the byte of a self-complementary k-mer: krel_contentW); C06_sharded_rc_invariant - the same for the "
                       "sharded, combined and re-compressed pipeline, with or without sharded pruning, via C04_sharded_eq_direct; "
                       "C06_direct_payload_rc_invariant - nodes of the two runs with the same k-mers carry the same payload. "
-                      "Adjacency equality of the finished graphs is evaluated on the crate's outputs for random masks, even and odd K.",
+                      "C06_direct_adjacency_rc_invariant - the finished graphs of the two runs have the same set of adjacencies, self-complementary "
+                      "k-mers included: adjacencies of the graph = recorded extensions of the pruned table (PGraph.adj_iff) = occurrences of the "
+                      "(K+1)-mer on either strand of some read between retained k-mers (adjK_occ), and reverse-complementing a read maps each "
+                      "occurrence to the occurrence of its reverse complement (occ_flip); for the sharded pipeline via C04_adjacencies_agree. "
+                      "The same equalities are also evaluated on the crate's outputs for random masks, even and odd K.",
         "design_ref": "DESIGN.md section 6, C06",
-        "level_note": COMMON_NOTE + "Partial: adjacency invariance of finished graphs by execution.",
+        "level_note": COMMON_NOTE + "Hypotheses: empty boundary extensions on the reads (what the pipeline entry points pass), count payloads.",
         "technique": "Lean 4 proof (order algebra of canonical forms; permutation invariance of the filter; congruence of the link relation) + differential correspondence with executable predicate over masked read sets",
     },
     "C09": {
